@@ -23,7 +23,7 @@ def signature(tr):
             return '%s:%s' % (sc, e['e'].lower())
     if any(e['e'] == 'Stuck' for e in evs):
         return '%s:stuck' % sc
-    i = vlib.first_unexplained(SDY, 'TraceWake', 'TraceWake.cfg', evs, 'c02')
+    i = vlib.first_unexplained(SDY, 'TraceWake', 'TraceWake.cfg', evs, 'c02', linear=True)
     return '%s:first-unexplained=%s' % (sc, evs[i]['e'] if i is not None else '?')
 
 
